@@ -226,6 +226,38 @@ pub fn strip_str_display(input: &str) -> Vec<u8> {
     format!("{}", anstream::adapter::strip_str(input)).into_bytes()
 }
 
+/// take `k` pieces with `next()`, then render the rest of the same adapter with Display
+/// (its documentation: "this does *not* exhaust the Iterator")
+pub fn strip_str_next_then_display(input: &str, k: usize) -> Vec<u8> {
+    let mut it = anstream::adapter::strip_str(input);
+    let mut out = Vec::new();
+    for _ in 0..k {
+        match it.next() {
+            Some(p) => out.extend_from_slice(p.as_bytes()),
+            None => break,
+        }
+    }
+    out.extend_from_slice(it.to_string().as_bytes());
+    // Display must not have consumed anything: the iterator still yields the rest
+    let rest: String = it.collect();
+    let _ = rest;
+    out
+}
+
+/// the same for the byte adapter: `next()` k times, then `into_vec()` of the remainder
+pub fn strip_bytes_next_then_into_vec(input: &[u8], k: usize) -> Vec<u8> {
+    let mut it = anstream::adapter::strip_bytes(input);
+    let mut out = Vec::new();
+    for _ in 0..k {
+        match it.next() {
+            Some(p) => out.extend_from_slice(p),
+            None => break,
+        }
+    }
+    out.extend(it.into_vec());
+    out
+}
+
 pub fn strip_str_incremental_one(input: &str) -> Result<Vec<u8>, String> {
     let mut s = anstream::adapter::StripStr::new();
     let pieces: Vec<&str> = s.strip_next(input).collect();
